@@ -337,9 +337,12 @@ func genXPath() {
 	fmt.Fprintf(&b, "/-- `getOperatorName` -/\ndef operatorNames : List String := %s\n", leanStrList(flatten(extractSwitchStrings("xpath/common_lexer.go", "getOperatorName"))))
 	fmt.Fprintf(&b, "/-- `tokenCanBeOperator`: preceding tokens after which a name / '*' is NOT an operator -/\ndef notOperatorAfter : List String := %s\n",
 		leanStrList(flatten(extractSwitchStrings("xpath/common_lexer.go", "tokenCanBeOperator"))))
-	goyacc := filepath.Join(filepath.Dir(out), "..", "..", "build", "goyacc")
-	if _, err := os.Stat(goyacc); err != nil {
-		goyacc = "/verif/build/goyacc"
+	// goyacc sits next to this binary (build/)
+	goyacc := "/verif/build/goyacc"
+	if exe, err := os.Executable(); err == nil {
+		if cand := filepath.Join(filepath.Dir(exe), "goyacc"); fileExists(cand) {
+			goyacc = cand
+		}
 	}
 	c1, f1, _ := yaccFacts(goyacc, "xpath/grammars/expr/xpath.y", "expr", "xpath/grammars/expr/xpath.go")
 	c2, _, _ := yaccFacts(goyacc, "xpath/grammars/leafref/leafref.y", "leafref", "")
@@ -350,6 +353,8 @@ func genXPath() {
 	fmt.Fprintf(&b, "\n/-- productions of leafref.y -/\ndef leafrefRules : List String := [\n  %s\n]\n", strings.Join(quoteAll(extractRules("xpath/grammars/leafref/leafref.y")), ",\n  "))
 	writeLean("XPath", b.String())
 }
+
+func fileExists(p string) bool { _, err := os.Stat(p); return err == nil }
 
 func quoteAll(l []string) []string {
 	q := make([]string, len(l))
